@@ -113,6 +113,14 @@ func checkC16(r *Run) {
 			return
 		}
 		stLoad := k.Call.Args[0]
+		if _, isLd := stLoad.(*ssa.UnOp); !isLd {
+			// through the single-assignment locals an inlined helper and a split result struct leave behind
+			if r := c.Resolve(stLoad); r != nil {
+				if _, ok := r.(ssa.Instruction); ok {
+					stLoad = r
+				}
+			}
+		}
 		stateOK := false
 		if _, isCS := isLoadOfField(stLoad, csF); isCS && c.heldAt(upd, stLoad.(ssa.Instruction), upd.Params[0], muF, "w") {
 			stateOK = true
@@ -149,7 +157,7 @@ func checkC16(r *Run) {
 			}
 		}
 		if !stateOK {
-			r1.Bad(key, in.Pos(), "the callback does not report the state read inside the critical section")
+			r1.Bad(key, in.Pos(), "the callback does not report the state read inside the critical section (it reports %s)", describeVal(stLoad))
 			return
 		}
 		errCall, callee := c.asCall(k.Call.Args[1])
